@@ -94,7 +94,7 @@ class World:
                        "write_through_shallow_copy": 0, "callback_fault_fired": 0,
                        "rbind_absent_column": 0, "rename_permutation": 0, "render_zero_col": 0,
                        "render_wide_unicode": 0, "aliasing_pairs_checked": 0,
-                       "elem_write_after_functional": 0}
+                       "elem_write_after_functional": 0, "colnames_shorter_list": 0}
         self.opcount = {}
         self.log = []
         self.abstract = []
@@ -1073,9 +1073,16 @@ class World:
         new = op["names"]
         old = list(dict.keys(f))
         tok = self.tokens(h)
-        defined = len(new) == len(old) and len(set(new)) == len(new)
+        # positional renaming: a shorter list renames the first len(new) columns, the
+        # others keep their name and place; duplicates / too long lists are undefined
+        full_new = list(new) + old[len(new):] if len(new) <= len(old) else list(new)
+        defined = len(new) <= len(old) and len(set(full_new)) == len(full_new)
+        short = len(new) < len(old)
+        new = full_new if defined else new
         if defined and set(new) == set(old) and new != old:
             self.probes["colnames_permutation"] += 1
+        if defined and short:
+            self.probes["colnames_shorter_list"] += 1
         if not defined:
             by_obj = {id(dict.__getitem__(f, n)): self.bufs[h].get(n) for n in old}
             keep = [dict.__getitem__(f, n) for n in old]        # keep ids alive
@@ -1096,12 +1103,12 @@ class World:
         gone = [n for n in old if n not in new]
 
         def call():
-            f.colnames = new
+            f.colnames = op["names"]
         info = self.inplace(op, call, h, {(h, "*")}, list(new), removed_add=gone, removed_del=new)
         if not info["raised"]:
             bad = self.compare_tokens(f, [(n, tok[o]) for n, o in zip(new, old)])
             for suffix, detail in bad:
-                cls = "permutation" if set(new) == set(old) else "fresh-names"
+                cls = "shorter-list" if short else ("permutation" if set(new) == set(old) else "fresh-names")
                 self.viol("C09", "reference", f"C09.set_colnames|{suffix}|{cls}",
                           f"colnames = {new!r} on {old!r}: {detail}")
                 self.names[h] = list(dict.keys(f))
@@ -1234,7 +1241,10 @@ class World:
         for name, dtype, values in geo["cols"]:
             cols[name] = M.build_column(dtype, values)
         cols["geometry"] = M.build_column("object", geo["geometry"])
-        return di.GeoJSON(**cols)
+        data = di.GeoJSON(**cols)
+        if geo.get("group"):
+            data.group_by(*geo["group"])      # a grouped object is reached through a history
+        return data
 
 
 # ---------------------------------------------------------------------------
@@ -1705,7 +1715,9 @@ class Gen:
                     new.append(n)
             op["names"] = new
         else:
-            op["names"] = cols[:-1] if cols else ["a"]      # too short: undefined
+            k = r.randint(0, max(0, len(cols) - 1))
+            fresh = [n for n in ["s1", "s2", "s3", "s4", "s5", "s6", "s7", "s8"] if n not in cols]
+            op["names"] = fresh[:k] if r.random() < 0.8 else cols[:k]      # shorter list
         return op
 
     def g_group_by(self):
@@ -1783,6 +1795,8 @@ class Gen:
                                {"type": "MultiPolygon", "coordinates": [[[[0, 0], [1, 1], [0, 1], [0, 0]]]]}])
                      for _ in range(n)]
             op["geo"] = {"cols": cols, "geometry": geoms}
+            if cols and r.random() < 0.3:
+                op["geo"]["group"] = [cols[0][0]]
             op["max_rows"] = r.choice([None, 1, n + 1])
             op["max_width"] = r.choice([None, 40])
             if op["how"] == "print_" and r.random() < 0.5:
